@@ -4,7 +4,7 @@ _C18_ATTRS = ["Origin", "AsPath", "NextHop", "MultiExitDisc", "LocalPref", "Atom
               "Aigp", "LargeCommunities", "Ls", "PrefixSID", "Unknown"]
 _C18_NLRIS = ["IPAddrPrefix", "LabeledIPAddrPrefix", "LabeledVPNIPAddrPrefix", "EncapNLRI", "VPLSNLRI", "RouteTargetMembershipNLRI", "FlowSpecNLRI", "OpaqueNLRI",
               "SRPolicyNLRI", "EVPNNLRI/EVPNEthernetAutoDiscoveryRoute", "EVPNNLRI/EVPNMacIPAdvertisementRoute", "EVPNNLRI/EVPNMulticastEthernetTagRoute",
-              "EVPNNLRI/EVPNEthernetSegmentRoute", "EVPNNLRI/EVPNIPPrefixRoute", "LsAddrPrefix/LsNodeNLRI", "LsAddrPrefix/LsLinkNLRI",
+              "EVPNNLRI/EVPNEthernetSegmentRoute", "EVPNNLRI/EVPNIPPrefixRoute", "EVPNNLRI/EVPNIPMSIRoute", "LsAddrPrefix/LsNodeNLRI", "LsAddrPrefix/LsLinkNLRI",
               "LsAddrPrefix/LsPrefixV4NLRI", "LsAddrPrefix/LsPrefixV6NLRI", "LsAddrPrefix/LsSrv6SIDNLRI", "MUPNLRI/MUPInterworkSegmentDiscoveryRoute",
               "MUPNLRI/MUPDirectSegmentDiscoveryRoute", "MUPNLRI/MUPType1SessionTransformedRoute", "MUPNLRI/MUPType2SessionTransformedRoute"]
 _C18_CAPS = ["MultiProtocol", "RouteRefresh", "CarryingLabelInfo", "ExtendedNexthop", "GracefulRestart", "FourOctetASNumber", "AddPath", "EnhancedRouteRefresh",
